@@ -10,7 +10,9 @@ PRIORITIES = [None, None, None, 'high', 'low', 'medium', 'highest', 'lowest',
               'parser', 'verifier', 'analyzer', 'instructor', 'HIGH', 'Low', 'Lowest']
 KINDS = [None, None, 'Mistake', 'Compliment', 'Instructional', 'Result', 'Hint']
 LABELS = ['alpha', 'Beta', 'gamma_3', 'delta']
-FIELDSETS = [{}, {'a': 1}, {'a': 1, 'b': 'x'}, {'a': 2}, {'b': 'x'}, {'name': 'total', 'line': 3}]
+FIELDSETS = [{}, {'a': 1}, {'a': 1, 'b': 'x'}, {'a': 2}, {'b': 'x'}, {'name': 'total', 'line': 3},
+             {'a': 2, 'b': 'x'}, {'a': 1, 'b': 'y'}, {'b': 'x', 'a': 1}, {'name': 'count', 'line': 3}, {'name': 'total', 'line': 4},
+             {'a': 1, 'b': 'x', 'c': None}, {'a': 1, 'b': 'x', 'c': 0}]
 SCORES_GRID = [None, None, 1, 0.5, 0.25, 0, '+10%', '10%', '-10%', '+0.2', '0.3', '-0.2', '-5%',
                '+33%', '7%', 0.07, -0.5, 2, '+1', '100%', '12.5%', '2.5%', '-0.5%', '+0.125', 0.125, '.5']
 SCORES_PROBE = [0.00001, 1e-7, 2.5e-05, 0.004, 0.006, 100, 1.0, 3]
@@ -79,11 +81,39 @@ def gen_suppressions(rng, feedbacks):
     n = rng.choice([0, 0, 1, 1, 2, 3, 4])
     labels_present = [f['kw'].get('label') for f in feedbacks if f['kw'].get('label')] or LABELS
     cats_present = [f['kw'].get('category') for f in feedbacks if f['kw'].get('category')] or CATEGORIES
+    with_fields = [f for f in feedbacks if f['kw'].get('label') and f['kw'].get('fields')]
     for _ in range(n):
         form = rng.choice(['category', 'category', 'category+label', 'label', 'label+fields',
-                           'category+label+fields', 'alias', 'correct'])
+                           'category+label+fields', 'alias', 'correct', 'near-miss', 'near-miss'])
         s = {}
-        if form == 'category':
+        if form == 'near-miss' and not with_fields:
+            form = 'label+fields'
+        if form == 'near-miss':
+            # aimed at one feedback that is present: its own label and a field set that matches it exactly, or in all but one
+            # field (first / last / any), or is a subset / superset / reordering of its fields
+            f = rng.choice(with_fields)
+            fields = dict(f['kw']['fields'])
+            keys = list(fields)
+            how = rng.choice(['exact', 'first-differs', 'last-differs', 'any-differs', 'subset', 'superset', 'reordered', 'superset-front'])
+            if how == 'first-differs':
+                fields[keys[0]] = 'other'
+            elif how == 'last-differs':
+                fields[keys[-1]] = 'other'
+            elif how == 'any-differs':
+                fields[rng.choice(keys)] = -1
+            elif how == 'subset' and len(keys) > 1:
+                del fields[rng.choice(keys)]
+            elif how == 'superset':
+                fields['zz'] = 1
+            elif how == 'superset-front':
+                fields = dict([('zz', 1)] + list(fields.items()))
+            elif how == 'reordered':
+                fields = dict(reversed(list(fields.items())))
+            s['label'] = f['kw']['label']
+            if f['kw'].get('category') and rng.random() < 0.5:
+                s['category'] = f['kw']['category']
+            s['fields'] = fields
+        elif form == 'category':
             s['category'] = rng.choice(cats_present + CATEGORIES)
         elif form == 'alias':
             s['category'] = rng.choice(['parser', 'verifier', 'analyzer', 'Instructor', 'RUNTIME'])
